@@ -261,7 +261,7 @@ var checkBinom = ev.Register("binomial", func(c *BCase) ev.Outcome {
 })
 
 const rule = "HypergeometicDist: exhaustively every (N,K,Draws) with 2<=N<=N* at every integer and half-integer k from 2 below to " +
-	"2 above the support; BinomialDist: every N<=60 (thorough 120) x P in {i/100} + {0,1,1e-12,1-1e-12}, same k grid; rapid adds " +
+	"2 above the support; BinomialDist: every N<=72 (thorough 120) x P in {i/100} + {0,1,1e-12,1-1e-12}, same k grid; rapid adds " +
 	"N up to 1000 with P uniform / j/N / tiny and random k. Oracle: exact big-integer masses over the common denominator " +
 	"(hypergeometric) and 400-bit masses from the exact value of P (binomial): PMF and CDF to 1e-10, exact 0 outside / below, " +
 	"exact 1 from the top, floor(k) semantics, Bounds, Step, Mean and Variance vs the first two moments of the exact PMF (1e-12 " +
@@ -298,7 +298,7 @@ func TestBinomExhaustive(t *testing.T) {
 		return
 	}
 	ev.Rule(rule)
-	maxN := 60
+	maxN := 72 // past 62 (the largest n whose central coefficient fits 63 bits) and 66 (64 bits)
 	if ev.Thorough() {
 		maxN = 120
 	}
